@@ -60,6 +60,9 @@ func TestC20Read(t *testing.T) {
 		{"klauspost-best", vlib.ZstdEncoderLevel(zstd.SpeedBestCompression)},
 		{"libzstd-1", func(b []byte) []byte { return vlib.ZstdEncodeC(b, 1) }},
 		{"libzstd-19", func(b []byte) []byte { return vlib.ZstdEncodeC(b, 19) }},
+		{"klauspost-stream-default", vlib.ZstdEncoderStream()},
+		{"klauspost-stream-window-32MiB-crc", vlib.ZstdEncoderStream(zstd.WithWindowSize(32<<20), zstd.WithEncoderCRC(true))},
+		{"klauspost-stream-best-window-1KiB", vlib.ZstdEncoderStream(zstd.WithEncoderLevel(zstd.SpeedBestCompression), zstd.WithWindowSize(1<<10))},
 	}
 	chunkSizes := []int{4096, 64 << 10, 1 << 20, 3 << 20}
 	suffixes := []string{"0", "123456789", "abcdefXYZ", "a1B2c3D4e5", "000000000000000000000000000042"}
@@ -136,7 +139,7 @@ func TestC20Read(t *testing.T) {
 	for _, p := range f.takePanics() {
 		rep.Violate("C14 handler panic during C20", p, nil)
 	}
-	rep.Sample(map[string]interface{}{"cfg": cfg, "files": len(blobs), "chunk_sizes": chunkSizes, "encoders": 5, "suffixes": suffixes})
+	rep.Sample(map[string]interface{}{"cfg": cfg, "files": len(blobs), "chunk_sizes": chunkSizes, "encoders": len(encs), "suffixes": suffixes})
 }
 
 // ---- (b) what this build writes ----
